@@ -1,3 +1,112 @@
-import Mwp.Model.Analysis
+/-
+  C15 — The fields of a function result agree (decision logic of `Analysis.func`, whatever
+  `cmds` returns), the bound has one entry per variable, and the choice object of a finite
+  result accepts exactly the vectors at which the reported relation has no ∞.
+  Helper lemmas: Mwp/Lemmas/Misc15.lean; `choices_exact` rests on `Props.C04.generate_exact`.
+-/
+import Mwp.Lemmas.Misc15
 namespace Mwp.Props.C15
+open Mwp Mwp.Analysis Mwp.Misc15
+
+/-- an infinite result has no choice object; relation and ∞-flow text are present exactly when
+    the analysis ran to completion (`stop = false`) -/
+theorem infinite_fields (n : Node) (stop : Bool) (r : FuncRes) (h : func n stop = .ok r)
+    (hi : r.infinite = true) :
+    r.choices = none ∧ r.relation.isSome = !stop ∧ r.infFlows.isSome = !stop := by
+  obtain ⟨dI, index, first, co, _, _, _, hrel, hch, _, hfl⟩ := func_inv n stop r h
+  rw [hi] at hrel hch hfl
+  refine ⟨by simpa using hch, ?_, by simpa using hfl⟩
+  rw [hrel]
+  cases stop <;> simp
+
+/-- a finite result has a relation, no ∞-flow text, and a choice object that is not infinite -/
+theorem finite_fields (n : Node) (stop : Bool) (r : FuncRes) (h : func n stop = .ok r)
+    (hf : r.infinite = false) :
+    r.relation.isSome = true ∧ r.infFlows = none ∧
+      ∃ c, r.choices = some c ∧ Choices.infinite c = false := by
+  obtain ⟨dI, index, first, co, _, hco, hinf, hrel, hch, _, hfl⟩ := func_inv n stop r h
+  rw [hf] at hrel hch hfl
+  rw [hf] at hinf
+  have hd : dI = false := by
+    cases dI
+    · rfl
+    · simp at hinf
+  obtain ⟨c, _, rfl⟩ := hco hd
+  subst hd
+  refine ⟨by rw [hrel]; rfl, by simpa using hfl, c, by simpa using hch, ?_⟩
+  simpa using hinf.symm
+
+/-- the bound computed at a choice has exactly one entry per variable of the relation, in order -/
+theorem bound_one_entry_per_variable (rel : Relation) (c : Choice) :
+    (boundAt rel c).map (·.1) = rel.vars :=
+  bound_names rel c
+
+/-- the choice object of a finite result accepts exactly the vectors at which the reported
+    relation has no ∞ -/
+theorem choices_exact (n : Node) (stop : Bool) (r : FuncRes) (rel : Relation) (ch : Choices.T)
+    (h : func n stop = .ok r) (hf : r.infinite = false)
+    (hr : r.relation = some rel) (hc : r.choices = some ch)
+    (hwf : ∀ s ∈ rel.infDeltas [], Choices.WFSeq Gen.domain r.index s)
+    (v : List Nat) (hv : Choices.VecOK Gen.domain r.index v) :
+    Choices.isValid ch v = true ↔ ∀ row ∈ rel.mat, ∀ p ∈ row, p.evalD v ≠ .i := by
+  obtain ⟨dI, index, first, co, _, hco, hinf, hrel, hch, hidx, _⟩ := func_inv n stop r h
+  rw [hf] at hrel hch hinf
+  have hd : dI = false := by
+    cases dI
+    · rfl
+    · simp at hinf
+  obtain ⟨c, hev, rfl⟩ := hco hd
+  have hfirst : first = rel := by
+    rw [hr] at hrel; simpa using hrel.symm
+  have hcc : c = ch := by
+    rw [hc] at hch; simpa using hch.symm
+  subst hfirst hcc hidx
+  obtain ⟨c', hgen, hvalid, _⟩ := Props.C04.generate_exact Gen.domain r.index
+    (Choices.dedup (first.infDeltas [])) (by decide) (by decide)
+    (fun s hs => hwf s ((Choices.mem_dedup _ _).1 hs))
+  have : c' = c := by
+    have h2 : Choices.generate Gen.domain r.index (Choices.dedup (first.infDeltas [])) = .ok c := hev
+    rw [hgen] at h2
+    simpa using h2
+  subst this
+  rw [hvalid v hv]
+  exact avoids_infDeltas first v
+
+/-! ## non-vacuity -/
+
+private def fn (body : List Node) : Node :=
+  .funcDef (.decl (some "f") (.funcDecl none) none) (.compound (some body))
+/-- `while (x) x = y + y;`  — finite, derivable only with the third alternative -/
+private def fFin : Node := fn [.decl (some "x") .typeDecl none, .decl (some "y") .typeDecl none,
+  .while_ (.id "x") (.assign "=" (.id "x") (.binop "+" (.id "y") (.id "y")))]
+/-- `while (x) x = x * x;`  — infinite -/
+private def fInf : Node := fn [.decl (some "x") .typeDecl none,
+  .while_ (.id "x") (.assign "=" (.id "x") (.binop "*" (.id "x") (.id "x")))]
+
+-- `infinite_fields` applies, in both modes
+example : (func fInf true).toOption.map (fun r => (r.infinite, r.relation.isSome, r.infFlows.isSome))
+    = some (true, false, false) := by decide
+example : (func fInf false).toOption.map (fun r => (r.infinite, r.relation.isSome, r.infFlows))
+    = some (true, true, some "x ➔ x") := by decide
+-- `finite_fields` / `choices_exact` apply: a finite result whose relation does contain ∞
+example : (func fFin true).toOption.map (fun r => (r.infinite, r.index)) = some (false, 1) := by decide
+example : (func fFin true).toOption.map (fun r => r.choices.map (fun c => c.valid))
+    = some (some [[[2]]]) := by decide
+example : (func fFin true).toOption.map (fun r => r.relation.map (fun rel => rel.infDeltas []))
+    = some (some [[(0,0)], [(1,0)], [(0,0)], [(1,0)]]) := by decide
+example : (func fFin true).toOption.map (fun r => r.relation.map
+    (fun rel => rel.mat.map (fun row => row.map (fun p => p.evalD [0]))))
+    = some (some [[.i, .o], [.i, .m]]) := by decide
+example : (func fFin true).toOption.map (fun r => r.relation.map
+    (fun rel => rel.mat.map (fun row => row.map (fun p => p.evalD [2]))))
+    = some (some [[.m, .o], [.w, .m]]) := by decide
+example : ∀ s ∈ ([[(0,0)], [(1,0)], [(0,0)], [(1,0)]] : List (List Delta)), Choices.WFSeq Gen.domain 1 s := by
+  intro s hs
+  simp only [List.mem_cons, List.mem_nil_iff, or_false] at hs
+  rcases hs with rfl | rfl | rfl | rfl <;> exact ⟨by decide, by decide⟩
+example : Choices.VecOK Gen.domain 1 [2] := ⟨rfl, by decide⟩
+-- the bound at the accepted choice names both variables
+example : (func fFin true).toOption.map (fun r => r.relation.map (fun rel => (boundAt rel [2]).map (·.1)))
+    = some (some ["x", "y"]) := by decide
+
 end Mwp.Props.C15
